@@ -21,6 +21,8 @@ var corpus = [][]string{
 	{`+ 1 10 100`, `var x = (+ 1 10 100)`, `put $x`, `- 5`, `- 10 3 2`, `* 2 3 4`, `*`, `+`, `-`, `< 1 2 3`, `< 1 3 2`, `== 1 1 1`, `!= 1 2`, `!= 1`, `>= 3 3 1`, `+ a 1`, `% 7 -2`, `% -7 2`, `% 1 0`},
 	{`has-key [&a=b] a`, `has-key [&a=b] x`, `has-key [a b] 1`, `has-key [a b] 2`, `has-key [a b] x`, `has-key [a b c] 0..2`, `has-value [a b] b`, `has-value [&k=v] v`, `has-value [&k=v] k`, `assoc [a b] 0 x`, `assoc [a b] 2 x`, `assoc [&k=v] k2 v2`, `dissoc [&k=v &j=w] k`, `dissoc [&k=v] nokey`, `conj [a] b c`, `conj [a]`, `conj`, `to-string (num 12)`, `to-string a b`, `kind-of a [] [&] (num 1) $nil $true { } ?(fail x)`, `bool $nil`, `bool []`, `not a`, `not $false`},
 	{`/ 6 3`, `/ 12 2 3`, `/ -6 3`, `/ 6 0`, `/ 0 6`, `/ 1`, `/ 0`, `num 12`, `num x`, `num (num 3)`, `num []`, `eq a a`, `eq a b`, `eq [a [b]] [a [b]]`, `eq [&a=b &c=d] [&c=d &a=b]`, `eq a (num 1)`, `eq 1 (num 1)`, `not-eq a b`, `not-eq a`, `eq`, `eq a`},
+	{`var x = 2`, `put $x`, `del x`, `var m = [&k=v &k2=v2]`, `del m[k2]`, `put $m`, `var l = [[&k=v &k2=v2]]`, `del l[0][k2]`, `put $l`, `del m[nokey]`, `put $m`, `del l[0]`, `del l[1][k]`},
+	{`var x = value`, `fn f { put $x }`, `del x`, `f`, `var y = 1; fail stop; del y`, `var z = 3`, `fail stop; del z`},
 	// ---- closures
 	{`fn make-adder { var n = 0; put { put $n } { set n = (+ $n 1) } }`, `var getter adder = (make-adder)`, `$getter`, `$adder`, `$getter`, `var getter2 adder2 = (make-adder)`, `$getter2`, `$getter`},
 	{`var f = {|a b| put $b $a }`, `$f lorem ipsum`, `$f lorem`, `$f a b c`},
@@ -46,6 +48,7 @@ var corpus = [][]string{
 	{`for x [a b] { try { put $x; break } finally { put fin } }`, `for x [a b] { try { put $x; continue } catch e { put caught-$x } }`, `for x [a b] { try { break } catch { put swallowed-$x } }`},
 	{`fn f { try { return } finally { put fin }; put unreached }`, `f`, `fn g { try { return } catch e { put caught }; put reached }`, `g`},
 	{`put ?(fail bad)`, `put ?(nop)`, `if ?(fail x) { put t } else { put f }`, `var output = (var error = ?(put foo; fail bad))`, `put $output $error`, `put (put a; fail b)`, `put ?(put a)`},
+	{`put ?(fail foo)[reason][content]`, `put ?(fail foo)[reason][type]`, `put ?(return)[reason][name] ?(break)[reason][type]`, `try { fail [a b] } catch e { put $e[reason][content][1] }`, `var p = ?(fail x | fail y)`, `put $p[reason][type]`, `for x $p[reason][exceptions] { put $x[reason][content] }`, `put ?(fail a)[reason][nokey]`, `put ?(put [][0])[reason][type]`},
 	{`fail`, `fail a b`, `put [(fail x)]`, `var z = (fail y)`, `put $z`, `set z = (put a b)`, `put $z`},
 	{`break`, `continue`, `return`, `put ?(break) ?(return)`, `{ break }`, `fn f { break }`, `f`},
 	// ---- and / or / coalesce
